@@ -472,8 +472,16 @@ impl M {
 
 /// a copy with spare allocation (capacity > length), as a vector grown by `push` has: the subject must
 /// never look at a Vec's capacity
+thread_local! {
+    static SPARE: std::cell::Cell<usize> = std::cell::Cell::new(5);
+}
+/// how much spare capacity the vectors handed to the subject get (an environment answer: a container that
+/// was once large and has been drained keeps its allocation)
+pub fn set_spare(n: usize) {
+    SPARE.with(|s| s.set(n));
+}
 pub fn spare<T: Clone>(v: &[T]) -> Vec<T> {
-    let mut w = Vec::with_capacity(v.len() + 5);
+    let mut w = Vec::with_capacity(v.len() + SPARE.with(|s| s.get()));
     w.extend_from_slice(v);
     w
 }
@@ -561,6 +569,49 @@ pub fn build(m: &M) -> PushState {
     s.configuration.max_points_in_random_expressions = c.max_points_in_random_expressions;
     s.configuration.max_points_in_program = c.max_points_in_program;
     s
+}
+
+/// Makes the visible content of a LIVE state equal to `m` through the containers' own operations (flush and
+/// push on the existing objects, clear and insert on the binding map): the state object, its containers and
+/// whatever else it carries stay the same objects -- nothing is rebuilt.
+pub fn set_live(s: &mut PushState, m: &M) {
+    fn refill<T: Clone, U>(st: &mut PushStack<U>, v: &[T], f: impl Fn(&T) -> U)
+    where
+        U: Clone + std::fmt::Display + PartialEq + pushr::push::stack::PushPrint,
+    {
+        st.flush();
+        for x in v.iter().rev() {
+            st.push(f(x));
+        }
+    }
+    refill(&mut s.bool_stack, &m.b, |v| *v);
+    refill(&mut s.int_stack, &m.i, |v| *v);
+    refill(&mut s.float_stack, &m.f, |v| *v);
+    refill(&mut s.name_stack, &m.n, |v| v.clone());
+    refill(&mut s.code_stack, &m.c, item_of);
+    refill(&mut s.exec_stack, &m.e, item_of);
+    refill(&mut s.bool_vector_stack, &m.bv, |v| BoolVector::new(spare(v)));
+    refill(&mut s.int_vector_stack, &m.iv, |v| IntVector::new(spare(v)));
+    refill(&mut s.float_vector_stack, &m.fv, |v| FloatVector::new(spare(v)));
+    refill(&mut s.index_stack, &m.x, |v| Index { current: v.0, destination: v.1 });
+    s.input_stack.flush();
+    for msg in &m.input {
+        s.input_stack.push(PushMessage::new(IntVector::new(spare(&msg.header)), BoolVector::new(spare(&msg.body))));
+    }
+    s.output_stack.flush();
+    for msg in &m.output {
+        s.output_stack.push(PushMessage::new(IntVector::new(spare(&msg.header)), BoolVector::new(spare(&msg.body))));
+    }
+    s.graph_stack.flush();
+    for g in m.graphs.iter().rev() {
+        s.graph_stack.push(graph_of(g));
+    }
+    s.name_bindings.clear();
+    for (k, v) in &m.bindings {
+        s.name_bindings.insert(k.clone(), item_of(v));
+    }
+    s.quote_name = m.quote;
+    s.send_name = m.send;
 }
 
 // ---------------------------------------------------------------------------
